@@ -1226,6 +1226,7 @@ func (ea *functionAnalysisState) ProcessBlock(bb *ssa.BasicBlock) (changed bool)
 					if less, _ := p.input.LessEqual(pre); less {
 						if lessOut, reason := p.output.LessEqual(post); !lessOut {
 							ea.prog.logger.Warnf("Monotonicity violation at %v because %s\n", instr, reason)
+							verifMonoViolation(instr, reason)
 							ea.prog.logger.Warnf("A <= B but !(C <= D)\nA (old pre):\n%v\nB (new pre):\n%v\nC (old post):\n%v\nD (new post):\n%v\n",
 								p.input.Graphviz(),
 								pre.Graphviz(),
@@ -1280,6 +1281,7 @@ func (ea *functionAnalysisState) RunForwardIterative() error {
 		return nil
 	}
 	for len(ea.worklist) > 0 {
+		verifPickBlock(ea.worklist)
 		block := ea.worklist[0]
 		ea.worklist = ea.worklist[1:]
 		g := ea.blockEnd[block]
@@ -1496,6 +1498,7 @@ func EscapeAnalysis(state *dataflow.AnalyzerState, root *callgraph.Node) (*Progr
 	// The main worklist algorithm. Reanalyze each function, putting any function(s) that need to be reanalyzed back on
 	// the list
 	for len(worklist) > 0 {
+		verifPickFunc(worklist)
 		summary := worklist[len(worklist)-1]
 		worklist = worklist[:len(worklist)-1]
 
